@@ -58,6 +58,7 @@ def generate(seed, tier):
     if topo in ('pair', 'line', 'star') and rng.random() < 0.35:
         nodes[n - 1]['listen'] = False
     silent = {'node': rng.randrange(n), 'blocks': rng.randint(1, 3)} if rng.random() < 0.5 else None
+    same_host = rng.random() < 0.25     # several nodes on one machine / behind one address: they differ in port only
     faulty = rng.random() < 0.5
     faults = []
     t_stop = 0
@@ -70,7 +71,7 @@ def generate(seed, tier):
                            'a': rng.randrange(1000)})
         t_stop = t + 1000
     return {'config': {'n': n, 'topology': topo, 'prefix': prefix, 'branches': branches, 'fresh': fresh, 'nodes': nodes,
-                       'faulty': faulty, 't_stop': t_stop, 'silent_growth': silent, 'tx_spec': LC.gen_tx_spec(rng), 'origin': rng.randrange(n),
+                       'faulty': faulty, 't_stop': t_stop, 'silent_growth': silent, 'same_host': same_host, 'tx_spec': LC.gen_tx_spec(rng), 'origin': rng.randrange(n),
                        'profile': {'lat_max': rng.choice([5, 50, 200, 800])}},
             'ops': faults}
 
@@ -155,6 +156,9 @@ def execute(script):
                 cs = cs.add_block_no_validation(sim.block_objs[bid])
         return cs
 
+    def addr_of(i):
+        return ('10.0.0.1', 2412 + i) if cfg.get('same_host') else ('10.0.0.%d' % (i + 1), 2412)
+
     k = Kernel(script.get('seed', 0), cfg.get('profile'))
     k.EVENT_BUDGET = 400_000 + 3_000 * len(sim.stored)      # a healthy run needs a few thousand events
     trace = k.trace
@@ -172,7 +176,7 @@ def execute(script):
                     os.remove(path + sfx)
                 except OSError:
                     pass
-            nd = SimNode(k, 'n%d' % i, '10.0.0.%d' % (i + 1), port=2412, store_path=path, skew_ms=cfg['nodes'][i]['skew_ms'])
+            nd = SimNode(k, 'n%d' % i, addr_of(i)[0], port=addr_of(i)[1], store_path=path, skew_ms=cfg['nodes'][i]['skew_ms'])
             nodes.append(nd)
 
         def instrument(nd):
@@ -180,30 +184,30 @@ def execute(script):
             ob, ot = nm.broadcast_block, nm.broadcast_transaction
             inc = nd.incarnation
 
-            def bb(block):
+            def bb(block, *a_, **kw_):
                 key = (nd.name, inc, 'block', rules.block_id(block))
                 relays[key] = relays.get(key, 0) + 1
-                return ob(block)
+                return ob(block, *a_, **kw_)
 
-            def bt(tx):
+            def bt(tx, *a_, **kw_):
                 if not origin_call['on']:        # the originator's own broadcast is not a relay
                     key = (nd.name, inc, 'tx', rules.tx_id(tx))
                     relays[key] = relays.get(key, 0) + 1
-                return ot(tx)
+                return ot(tx, *a_, **kw_)
             nm.broadcast_block, nm.broadcast_transaction = bb, bt
             osend = nm.broadcast_message
 
-            def bm(message):
+            def bm(message, *a_, **kw_):
                 data_sent['n'] += 1
                 data_sent['last_at'] = k.now
-                return osend(message)
+                return osend(message, *a_, **kw_)
             nm.broadcast_message = bm
 
         start_max = 0
         for i, nd in enumerate(nodes):
             cs = state_for(cfg['nodes'][i])
             start_max = max(start_max, cs.head().height)
-            peers = [('10.0.0.%d' % (j + 1), 2412) for j in neighbours(cfg['topology'], n, i)]
+            peers = [addr_of(j) for j in neighbours(cfg['topology'], n, i)]
             nd.boot(cs, peers=peers, listen=cfg['nodes'][i].get('listen', True))
             instrument(nd)
         target_height = start_max
@@ -244,6 +248,8 @@ def execute(script):
                         s.reset_after_bytes = (s.peer.rx.sent if s.peer else 0) + 1 + f.get('a', 0) % 3000
                         res.bump('fault:reset_armed_mid_stream')
             elif kind == 'partition':
+                if cfg.get('same_host'):
+                    continue        # a partition is drawn between hosts
                 k.partitions.append(frozenset([nd.host]))
                 res.bump('fault:partition')
                 k.at(k.now + f.get('dur', 2000), lambda p=k.partitions[-1]: k.heal(p))
@@ -272,7 +278,7 @@ def execute(script):
                     bs.DefaultBlockStore.instance = None
                 k.current = nd
                 try:
-                    peers = [('10.0.0.%d' % (j + 1), 2412) for j in neighbours(cfg['topology'], n, f['node'] % n)]
+                    peers = [addr_of(j) for j in neighbours(cfg['topology'], n, f['node'] % n)]
                 finally:
                     k.current = None
                 nd.boot(cs2, peers=peers, listen=cfg['nodes'][f['node'] % n].get('listen', True))
